@@ -28,7 +28,7 @@ var c17GCHooks = []string{
 }
 
 var c17FailKinds = []string{"index-file-size-mismatch", "primary-file-size-mismatch", "corrupt-index-header", "empty-index-header", "corrupt-primary-header", "unsupported-primary-type",
-	"cancelled-context", "interrupted-translation-leftover", "translation-unreadable-index-file", "bits-out-of-range", "index-file-size-too-large", "primary-file-size-too-large"}
+	"cancelled-context", "interrupted-translation-leftover", "translation-unreadable-index-file", "translation-fails-double-mismatch", "translation-fails-primary-truncated", "bits-out-of-range", "index-file-size-too-large", "primary-file-size-too-large"}
 
 func c17Counts(tier string) (closeRandom, gated, flushParked, failing, cycles int) {
 	if tier == "thorough" {
@@ -408,6 +408,18 @@ func c17FailingOpen(c run.Ctx, res *core.CaseResult, kind string) {
 			os.WriteFile(env.IndexPath+".0", b[:len(b)/2], 0o644)
 			os.Remove(env.IndexPath + ".buckets")
 		}
+	case "translation-fails-double-mismatch":
+		// bit size AND index file size differ: the translation cannot open the old index
+		bad.Bits = cfg.Bits + 3
+		bad.IndexFileSize = 777
+	case "translation-fails-primary-truncated":
+		// bit size differs and the primary data the index refers to is gone: re-inserting fails midway
+		bad.Bits = cfg.Bits + 3
+		for n := 0; n < 64; n++ {
+			if _, err := os.Stat(fmt.Sprintf("%s.%d", env.DataPath, n)); err == nil {
+				os.Truncate(fmt.Sprintf("%s.%d", env.DataPath, n), 0)
+			}
+		}
 	case "bits-out-of-range":
 		bad.Bits = 40
 	case "index-file-size-too-large":
@@ -442,7 +454,7 @@ func c17FailingOpen(c run.Ctx, res *core.CaseResult, kind string) {
 	}
 	// a following correct open must find the contents (restore what the test itself damaged)
 	switch kind {
-	case "corrupt-index-header", "empty-index-header", "corrupt-primary-header", "interrupted-translation-leftover", "translation-unreadable-index-file":
+	case "corrupt-index-header", "empty-index-header", "corrupt-primary-header", "interrupted-translation-leftover", "translation-unreadable-index-file", "translation-fails-primary-truncated", "translation-fails-double-mismatch":
 		os.RemoveAll(env.Root)
 		os.MkdirAll(env.Root, 0o755)
 		saved.Materialize(env.Root)
